@@ -1,7 +1,7 @@
 (* Extract/DrvC03.v — driver for C03: runs the very definitions the theorems of
    Props/C03.v are about (Spec.C03Sym, Spec.C03Hash, Model.C03Sections, Model.C03Hash).
    Request: (op args...).  Extracted with ExtrOcamlBasic only. *)
-From PV Require Import Base.Fmt Base.Outcome Base.Prim Spec.C03Sym Spec.C03Hash
+From PV Require Import Base.Fmt Base.Outcome Base.Prim Gen.PyFuns Spec.C03Sym Spec.C03Hash
                        Model.C03Sections Model.C03Hash.
 Local Open Scope Z_scope.
 Local Open Scope string_scope.
@@ -70,7 +70,9 @@ Definition dispatch (req : sx) : sx :=
     sx_list (fun q => sx_bool (present_from names (gI a3) q)) (g_names a4)
   (* ---- model *)
   else if op =? "m_hashes" then
-    sx_list (fun n => SL [SI (elf_hash n); SI (gnu_hash_m n); SI (elf_hash_unrepaired n)]) (g_names a1)
+    (* hand models, the pre-repair function, and the functions translated from the live source *)
+    sx_list (fun n => SL [SI (elf_hash n); SI (gnu_hash_m n); SI (elf_hash_unrepaired n);
+                          SI (gen_elf_hash n); SI (gen_gnu_hash n)]) (g_names a1)
   else if op =? "m_num" then SI (num_symbols (g_cfg a1))
   else if op =? "m_iter" then sx_res sx_views (iter_symbols (gB a1) (g_cfg a2))
   else if op =? "m_get" then                (* img cfg indices *)
